@@ -9,7 +9,9 @@
   gateway_shift_matching.go / gateway_patch_expired.go
                        build…Predicate: candidate key set from the bucket index *before* the selection;
                        the indexed leg itself is not evaluated again (only the residual is)
-  swamp.go             CloneAndDelete…: deleteHandler for every shifted record
+  swamp.go             CloneAndDelete…: after the selection pass (index entries removed, copies taken) one
+                       deleteHandler call per selected record — a separate step per record (`shiftDel`);
+                       other requests run in between
   swamp_patch_expired.go  applyPatchExpiredOne: void → KEY_NOT_FOUND, otherwise patch + Save
                        (Save of an object that is no longer under its key re-inserts it)
 
@@ -38,6 +40,10 @@ structure Cfg where
   /-- ShiftMatching only: an *empty* candidate set is represented by a nil map and the predicate
       tests `keySet != nil` before consulting it — so "no candidates" lets every record through -/
   emptyCandMeansAll : Bool
+  /-- the per-record delete step of a shift claim re-checks, under the record guard, that the record is still
+      stored under its key and still passes the selection predicate, and hands out the copy taken there
+      (otherwise: deletes whatever is under the key and hands out the copy taken by the selection pass) -/
+  deleteRevalidates : Bool
   deriving DecidableEq, Repr
 
 structure Rec where
@@ -45,6 +51,8 @@ structure Rec where
   status : Nat
   present : Bool
   void : Bool
+  /-- ghost: bumped by every acknowledged write to the record -/
+  ver : Nat := 0
   deriving DecidableEq, Repr
 
 structure Claim where
@@ -78,6 +86,9 @@ structure St where
   sel : Nat → List Nat
   /-- non-atomic selection only: (taken, remaining) computed by the read half -/
   pend : Nat → Option (List Nat × List Nat × Option Nat)
+  /-- shift claims in flight: records selected (key, version of the copy) whose delete step has not run yet -/
+  shsel : Nat → List (Nat × Nat)
+  shwant : Nat → Option Nat
 
 inductive Act where
   | seed (k status : Nat) (exp : Int)
@@ -88,8 +99,11 @@ inductive Act where
   | expIndex (k : Nat)
   | delete (k : Nat)
   | snapshot (c want : Nat)
-  /-- `want = none`: ShiftExpired; `some w`: ShiftMatching whose indexable leg is `field = w` -/
+  /-- the selection pass of a shift claim.  `want = none`: ShiftExpired; `some w`: ShiftMatching whose
+      indexable leg is `field = w` -/
   | shift (c n : Nat) (want : Option Nat)
+  /-- the delete step for one selected record -/
+  | shiftDel (c k : Nat)
   | shiftRead (c n : Nat) (want : Option Nat)
   | shiftWrite (c : Nat)
   | pselect (p n : Nat) (useCand : Bool)
@@ -101,7 +115,8 @@ def now : Int := 1000
 
 def init (persisted : Bool) : St × Bool :=
   ({ recs := fun _ => { exp := 0, status := 0, present := false, void := true }, born := [], index := [], claimed := [],
-     pclaimed := [], batches := [], deleted := [], cand := fun _ => none, sel := fun _ => [], pend := fun _ => none }, persisted)
+     pclaimed := [], batches := [], deleted := [], cand := fun _ => none, sel := fun _ => [], pend := fun _ => none,
+     shsel := fun _ => [], shwant := fun _ => none }, persisted)
 
 def upd {α : Type} (f : Nat → α) (k : Nat) (v : α) : Nat → α := fun k' => if k' = k then v else f k'
 
@@ -155,13 +170,6 @@ def delRec (persisted : Bool) (r : Rec) : Rec :=
 def delAll (persisted : Bool) (recs : Nat → Rec) (ks : List Nat) : Nat → Rec :=
   fun k => if ks.contains k && (recs k).present then delRec persisted (recs k) else recs k
 
-def commitShift (persisted : Bool) (s : St) (c n : Nat) (want : Option Nat) (taken remaining before : List Nat)
-    (okOf : Nat → Bool) : St :=
-  { s with index := remaining,
-           claimed := s.claimed ++ taken.map (fun k => { claimer := c, key := k, ok := okOf k }),
-           batches := s.batches ++ [{ claimer := c, howMany := n, got := taken, before := before }],
-           recs := delAll persisted s.recs taken }
-
 def pselPred (cfg : Cfg) (s : St) (p : Nat) (useCand : Bool) (k : Nat) : Bool :=
   expiredCode cfg (s.recs k) &&
   (if useCand then inCand s p k &&
@@ -182,11 +190,11 @@ def step (cfg : Cfg) (sp : St × Bool) : Act → Option (St × Bool)
   | .setStatus k v =>
     let s := sp.1
     if (s.recs k).present && !(s.recs k).void then
-      some ({ s with recs := upd s.recs k { s.recs k with status := v } }, sp.2)
+      some ({ s with recs := upd s.recs k { s.recs k with status := v, ver := (s.recs k).ver + 1 } }, sp.2)
     else none
   | .expWrite k e =>
     let s := sp.1
-    if (s.recs k).present then some ({ s with recs := upd s.recs k { s.recs k with exp := e } }, sp.2) else none
+    if (s.recs k).present then some ({ s with recs := upd s.recs k { s.recs k with exp := e, ver := (s.recs k).ver + 1 } }, sp.2) else none
   | .expIndex k =>
     let s := sp.1
     if (s.recs k).present then
@@ -206,8 +214,32 @@ def step (cfg : Cfg) (sp : St × Bool) : Act → Option (St × Bool)
   | .shift c n want =>
     let s := sp.1
     if !cfg.selectAtomic then none else
+    if !(s.shsel c).isEmpty then none else
     let r := walk (shiftPred cfg s c want) cfg.counterLe n s.index 0
-    some (commitShift sp.2 s c n want r.1 r.2 s.index (shiftOk s want), sp.2)
+    some ({ s with index := r.2, shsel := upd s.shsel c (r.1.map (fun k => (k, (s.recs k).ver))), shwant := upd s.shwant c want,
+                   batches := s.batches ++ [{ claimer := c, howMany := n, got := r.1, before := s.index }] }, sp.2)
+  | .shiftDel c k =>
+    let s := sp.1
+    match (s.shsel c).find? (fun e => e.1 == k) with
+    | none => none
+    | some e =>
+      let want := s.shwant c
+      let rest := (s.shsel c).filter (fun e => e.1 != k)
+      let r := s.recs k
+      let idx := s.index.filter (· != k)
+      if cfg.deleteRevalidates then
+        if r.present && shiftPred cfg s c want k then
+          some ({ s with shsel := upd s.shsel c rest,
+                         claimed := s.claimed ++ [{ claimer := c, key := k, ok := shiftOk s want k }],
+                         recs := upd s.recs k (delRec sp.2 r), index := idx }, sp.2)
+        else
+          -- not (or no longer) wanted: nothing is handed out; a record that is still there goes back into the index
+          some ({ s with shsel := upd s.shsel c rest,
+                         index := if r.present && r.exp != 0 then ins (fun x => (s.recs x).exp) k idx else idx }, sp.2)
+      else
+        some ({ s with shsel := upd s.shsel c rest,
+                       claimed := s.claimed ++ [{ claimer := c, key := k, ok := shiftOk s want k && r.ver == e.2 }],
+                       recs := if r.present then upd s.recs k (delRec sp.2 r) else s.recs, index := idx }, sp.2)
   | .shiftRead c n want =>
     let s := sp.1
     if cfg.selectAtomic then none else
@@ -236,7 +268,7 @@ def step (cfg : Cfg) (sp : St × Bool) : Act → Option (St × Bool)
     let r := s.recs k
     if r.void || (cfg.patchChecksExists && !r.present) then some sp      -- KEY_NOT_FOUND
     else
-      let recs := upd s.recs k { r with status := ns, exp := ne, present := true }
+      let recs := upd s.recs k { r with status := ns, exp := ne, present := true, ver := r.ver + 1 }
       let rest := s.index.filter (· != k)
       some ({ s with recs := recs, index := if ne != 0 then ins (fun x => (recs x).exp) k rest else rest }, sp.2)
   | .preindex p =>
